@@ -407,9 +407,9 @@ func readString(buf *bytes.Buffer) (string, error) { // nolint:interfacer
 		return "", errors.New("string underflow")
 	}
 
-	strbytes := make([]byte, strlen)
-	n, err := buf.Read(strbytes)
-	if (err != nil) || (n != int(strlen)) {
+	// One allocation per string: the bytes are there (checked above), convert them without an intermediate copy
+	strbytes := buf.Next(int(strlen))
+	if len(strbytes) != int(strlen) {
 		return "", errors.New("string underflow")
 	}
 	return string(strbytes), nil
@@ -782,17 +782,10 @@ func decodeMemberAssignmentV0(buf *bytes.Buffer) (map[string][]int32, string) {
 		return topics, "assignment_topic_count"
 	}
 
-	// The count comes from the wire. Every topic entry takes at least 6 bytes (name length and partition count), so
-	// use it as a size hint only as far as the remaining bytes could hold that many entries
+	// The count comes from the wire: it is not used to size the map. The map grows as topics are actually decoded, so
+	// what is allocated follows what the message really contains, not what it announces
 	topicCount := int(numTopics)
-	sizeHint := topicCount
-	if maxTopics := buf.Len() / 6; sizeHint > maxTopics {
-		sizeHint = maxTopics
-	}
-	if sizeHint < 0 {
-		sizeHint = 0
-	}
-	topics = make(map[string][]int32, sizeHint)
+	topics = make(map[string][]int32)
 	for i := 0; i < topicCount; i++ {
 		topicName, err := readString(buf)
 		if err != nil {
